@@ -78,13 +78,13 @@ def strategy(tier):
         algo = draw(st.sampled_from(["exact", "tau", "tau", "pre_tau"]))
         a = {"exact": algo == "exact", "pre_tau": None, "epsilon": None}
         if algo == "pre_tau":
-            a["pre_tau"] = draw(st.sampled_from([0.01, 0.05, 0.2, 1.0]))
+            a["pre_tau"] = draw(st.sampled_from([0.01, 0.05, 0.2, 1.0])) / setup.get("clock", 1.0)
         if shape == "any" and draw(st.integers(0, 4)) == 0:
             # a magnitude that is the current value of a state ('the whole compartment leaves at once'): the state-change
             # matrix then depends on the state and has to be evaluated at every step
             names_ = ir.state_names(m)
             tgt = draw(st.sampled_from(names_))
-            m = dict(m, events=m["events"] + [{"rate": ir.C(draw(S.fl(0.05, 0.6, 2))), "rate_kind": "const",
+            m = dict(m, events=m["events"] + [{"rate": ir.C(S.sig(draw(S.fl(0.05, 0.6, 2)) * setup.get("clock", 1.0), 3)), "rate_kind": "const",
                                                "trans": [{"kind": "D", "o": tgt, "d": None, "mag": {"state": tgt}}]}])
         c = {"model": m, "setup": setup, "algo": a, "iters": draw(st.integers(1, 3))}
         state_mag = any("state" in t["mag"] for e in m["events"] for t in e["trans"])
